@@ -167,6 +167,18 @@ def judgeBoth (sep : Option Rat) (tag : String) (t margin pred : Rat) (o : List 
       if ra.startsWith "pass" || rb.startsWith "pass" then "pass" else ra
     | _, _ => "fail unparsable-output"
 
+/-- two boxes with parallel faces whose centre offset lies in a symmetry plane of box 1 (the configuration of the known EPA
+finding: coplanar faces of the expanding polytope, non-minimal depth) -/
+def symmetricParallelBoxes (s1 s2 : XShape3) (m1 m2 : Iso3 Rat) : Bool :=
+  match s1, s2 with
+  | .prim (.cuboid _), .prim (.cuboid _) =>
+    let small (c : Rat) : Bool := rabs c ≤ 1 / 1000000000
+    let axisLike (v : V3 Rat) : Bool := [v.x, v.y, v.z].all fun c => small c || small (rabs c - 1)
+    let ax : List (V3 Rat) := [⟨1, 0, 0⟩, ⟨0, 1, 0⟩, ⟨0, 0, 1⟩]
+    let d := m1.invRot (m2.t.sub m1.t)
+    (ax.all fun e => axisLike (m1.invRot (m2.rot e))) && (small d.x || small d.y || small d.z)
+  | _, _ => false
+
 /-- contact of a convex pair against the exact signed separation `sep` (distance when apart, minus the minimum separating
 translation when overlapping) and the overlap `over` along the reported normal (when available) -/
 def judgeExactContact (tag : String) (sep t pred : Rat) (over : V3 Rat → Option Rat) (self : Contact3 Rat → String)
@@ -180,7 +192,13 @@ def judgeExactContact (tag : String) (sep t pred : Rat) (over : V3 Rat → Optio
     if sep > pred + t then s!"fail some-but-beyond-prediction {tag} exact-separation={sep.toF} prediction={pred.toF}"
     else if rabs (c.dist - sep) > t then
       (if sep > 0 then s!"fail dist-is-not-the-separation {tag} dist={c.dist.toF} exact-separation={sep.toF}"
-       else s!"fail depth-is-not-the-minimum-translation {tag} dist={c.dist.toF} exact={sep.toF}")
+       else
+        -- the reported normal is a minimising direction but the witnesses are not `depth` apart along it
+        let shortAlongRightNormal := match over c.normal1 with
+          | some ov => rabs (ov + sep) ≤ t && c.dist < 0 && -c.dist < ov - t
+          | none => false
+        if shortAlongRightNormal then s!"fail witnesses-short-of-the-depth-along-a-minimising-normal1 {tag} dist={c.dist.toF} exact={sep.toF}"
+        else s!"fail depth-is-not-the-minimum-translation {tag} dist={c.dist.toF} exact={sep.toF}")
     else
     let s := self c
     if s != "pass" then s
@@ -348,6 +366,9 @@ def handler (fn : String) : Option Handler :=
                 let over (n : V3 Rat) : Option Rat := match G1, G2 with
                   | .conv A, .conv B => some (overlapAlong2 A B ⟨n.x, n.y⟩)
                   | _, _ => none
+                let tag := match G1, G2 with
+                  | .conv A, .conv B => if roundTouching2 A B then tag ++ "[round-cores-touching]" else tag
+                  | _, _ => tag
                 judgeExactContact tag sep t (q pred) over (fun c => judgeSelf tag sz S (q pred) c memb)
                   (out.map fun c => embedC (qcontact2 c)))
             | none, _, _ => "fail unparsable-output"
@@ -357,7 +378,7 @@ def handler (fn : String) : Option Handler :=
       model := fun _ => some "oracle-only"
       oracle := fun a o => match run (do let a ← pxshape3; let m1 ← piso3; let b ← pxshape3; let m2 ← piso3; let p ← pf; pure (a, m1, b, m2, p)) a with
         | some (s1, m1, s2, m2, pred) =>
-          let tag := s!"pair={s1.kind}/{s2.kind}"
+          let tag := s!"pair={s1.kind}/{s2.kind}" ++ (if symmetricParallelBoxes s1 s2 (qiso3 m1) (qiso3 m2) then "[symmetric-parallel-boxes]" else "")
           match o with
           | "panic" :: _ => s!"fail panic {tag}"
           | ["unsupported"] => "skip unsupported-pair"
@@ -377,6 +398,9 @@ def handler (fn : String) : Option Handler :=
                 let over (n : V3 Rat) : Option Rat := match G1, G2 with
                   | .conv A _, .conv B _ => some (overlapAlong3 A B n)
                   | _, _ => none
+                let tag := match G1, G2 with
+                  | .conv A Af, .conv B Bf => if roundTouching3 A Af B Bf then tag ++ "[round-cores-touching]" else tag
+                  | _, _ => tag
                 judgeExactContact tag sep t (q pred) over (fun c => judgeSelf tag sz S (q pred) c memb)
                   (out.map qcontact))
             | none, _, _ => "fail unparsable-output"
